@@ -1,1 +1,90 @@
-From VP Require Import Base.Tactics Coord.Model Coord.Route.
+(* Property theorems for C34: routing of injected events to pipelines and replicas.
+   Only statements; proofs are in RouteProofs.v.  Model: Coord/Route.v. *)
+From Coq Require Import String Ascii.
+From VP Require Import Base.Tactics Coord.Model Coord.Route Coord.RouteProofs.
+Open Scope N_scope.
+
+(* An injected event goes to the pipeline of the first route one of whose patterns matches its type,
+   and to the group's first pipeline when no route matches. *)
+Theorem C34_first_matching_route :
+  forall routes pipelines ty,
+    find_target routes pipelines ty =
+    match find (fun r => existsb (event_type_matches ty) (r_patterns r)) routes with
+    | Some r => Some (r_to r)
+    | None => hd_error pipelines
+    end.
+Proof. exact find_target_first. Qed.
+
+(* what "matches" means: a trailing '*' is a prefix match, anything else is equality *)
+Theorem C34_wildcard_is_prefix :
+  forall ty prefix, event_type_matches ty (prefix ++ "*")%string = true <-> exists rest, ty = (prefix ++ rest)%string.
+Proof. intros. rewrite matches_wildcard. apply is_prefix_spec. Qed.
+Theorem C34_exact_otherwise :
+  forall ty pat, (forall prefix, pat <> (prefix ++ "*")%string) -> (event_type_matches ty pat = true <-> ty = pat).
+Proof. intros ty pat H. rewrite (matches_exact ty pat H). apply str_eqb_eq. Qed.
+
+(* Key-hash partitioning, for an arbitrary hash function: the replica of a key-hashed group is a
+   function of the key text alone; no injection of either kind ever changes that group; and the two
+   injection paths produce the same key text for the same key value.  Hence all events with the
+   same key value reach the same replica, singly or in a batch, anywhere in a run. *)
+Theorem C34_replica_depends_on_key_text_only :
+  forall hash st l rg k fields,
+    keeps l rg st -> rg_key rg = Some k ->
+    fst (route_event hash st l fields) = hash_replica hash rg (key_string fields k).
+Proof. exact route_event_hash. Qed.
+
+Theorem C34_hash_group_unchanged_by_single :
+  forall hash st l rg k ty fields,
+    keeps l rg st -> rg_key rg = Some k -> keeps l rg (snd (resolve_single hash st ty fields)).
+Proof. exact resolve_single_keeps. Qed.
+Theorem C34_hash_group_unchanged_by_batch_event :
+  forall hash st l rg k ty data,
+    keeps l rg st -> rg_key rg = Some k -> keeps l rg (snd (route_batch_event hash st ty data)).
+Proof. exact route_batch_keeps. Qed.
+
+Theorem C34_same_key_text_single_and_batch :
+  forall v k (other1 : list (string * jval)) (other2 : list (string * rvalue)),
+    field_get other1 k = None -> field_get (batch_fields other2) k = None ->
+    key_string (other1 ++ opt_field k (single_json v)) k =
+    key_string (batch_fields (other2 ++ opt_field k (batch_value v))) k.
+Proof. exact same_key_text. Qed.
+
+(* the statement in one piece: two injections of the same key value into the same key-hashed
+   pipeline, one single and one inside a batch, in two arbitrary states of the same group *)
+Theorem C34_sticky :
+  forall hash l rg k st1 st2 v other1 other2,
+    keeps l rg st1 -> keeps l rg st2 -> rg_key rg = Some k ->
+    field_get other1 k = None -> field_get (batch_fields other2) k = None ->
+    fst (route_event hash st1 l (other1 ++ opt_field k (single_json v))) =
+    fst (route_event hash st2 l (batch_fields (other2 ++ opt_field k (batch_value v)))).
+Proof.
+  intros hash l rg k st1 st2 v o1 o2 H1 H2 Hk Ho1 Ho2.
+  rewrite (route_event_hash hash st1 l rg k _ H1 Hk), (route_event_hash hash st2 l rg k _ H2 Hk).
+  now rewrite (same_key_text v k o1 o2 Ho1 Ho2).
+Qed.
+
+Example C34_sticky_nonvacuous :
+  let st := init_state [] [mkRSpec 1 3 (Some "k"%string)] [true; true; true] in
+  exists rg, keeps 16 rg st /\ rg_key rg = Some "k"%string /\ length (rg_names rg) = 3%nat /\
+    fst (resolve_single str_hash st "A" [("seq"%string, JInt 1); ("k"%string, JBig 18446744073709551615 "1.8446744073709552e+19")]) =
+    fst (route_batch_event str_hash st "A" [("seq"%string, VJson (JInt 2)); ("k"%string, VJson (JFloat "1.8446744073709552e+19"))]).
+Proof. vm_compute. eexists. repeat split; reflexivity. Qed.
+
+(* Round robin: over any run of m selections that does not cross the 2^64 wrap of the counter, the
+   chosen replica indices are (c0 + k) mod n, and the loads of any two replicas differ by at most one. *)
+Theorem C34_round_robin_indices :
+  forall hash evs rg,
+    rg_key rg = None -> rg_names rg <> [] -> rg_counter rg + N.of_nat (length evs) < M64 ->
+    rr_run hash rg evs =
+    map (fun i => nth (N.to_nat i) (rg_names rg) 0)
+        (rr_indices (rg_counter rg) (N.of_nat (length (rg_names rg))) (length evs)).
+Proof. exact rr_run_spec. Qed.
+
+Theorem C34_round_robin_balanced :
+  forall c0 n m i j, 0 < n -> i < n -> j < n ->
+    load i (rr_indices c0 n m) <= load j (rr_indices c0 n m) + 1.
+Proof. exact rr_balanced. Qed.
+
+Example C34_round_robin_example :
+  rr_indices 7 3 8 = [1; 2; 0; 1; 2; 0; 1; 2] /\ load 0 (rr_indices 7 3 8) = 2 /\ load 1 (rr_indices 7 3 8) = 3.
+Proof. vm_compute. auto. Qed.
